@@ -176,6 +176,35 @@ Seventh round (C15 and C08 once more, agents told about every oracle built so fa
   `m2` (indicator pairs walked along the isstd vector only) and `m3` (explicit `+` on a rule time in a version-2 footer) were caught as
   they were, `m3` thanks to the round-5 addition.
 
+Eighth round (all six properties, agents told about everything built so far and what had been tried before): 18 changes, 9 missed at first
+(two of them by making the *check itself* fail: a hang and an unconfirmable crash).
+
+* `seeded/C15-r8c15-m1` (the default reader stats the file and then reads at most that many octets: overtaken by an atomic replacement
+  between the two requests): nothing could run between two system calls of one library call. The system-call shim now calls back into
+  the simulator before every file-system request; while a call through the default reader is in progress (`liveread`) that is a
+  scheduling point, and an installer actor replaces *real* files under `/verif/target/live/<pid>/` atomically (`liveinstall`: write to a
+  temporary name, rename). The answer must be the decoding of a version that was current during the call.
+  `m2` (the default reader takes an exclusive `flock`) and `m3` (a diagnostic line written to `stderr` on the description path, which made
+  the *check* hang on a full pipe): the shim now also counts use of the standard streams and of file locks during library calls;
+  workers write to log files instead of pipes, and a worker that makes neither progress nor uses CPU time for four minutes is killed and
+  reported (`C07.hang`).
+* `seeded/C20-r8c20-m2` (no separator after the directory `/`): directory pool extended with `/`, the empty string, `/d4/`, `.`, `//d5`,
+  `zi/`, `/d3/.`, each with a decoy file at the tidied spelling. `m1` (names with `..` refused) and `m3` (description cut at the first
+  inner blank) were caught as they were.
+* `seeded/C07-r8c07-m2` (version `4` accepted, panic for exactly one leap record): the byte sweep used four values per octet; the two
+  version octets now take all 256 values, separately and together. `m3` (one stack frame per leading colon; aborts only in an unoptimised
+  build): TZ strings of one token repeated up to 100 000 times; the quick tier now also runs a slice under the plain and the unoptimised
+  build; replay files name the build profile that found them and are confirmed with that build (the crash had been found but could not
+  be confirmed by the optimised worker). Found on the way: the per-profile sweeps overwrote the statistics (and findings) of the main
+  sweep of the same kind; their output files now carry the profile name.
+* `seeded/C19-r8c19-m1` (errors of the caller's reader downcast to `io::Error` with std): `featsim`'s reader only ever failed with
+  `ENOENT`; it now fails in the sixteen ways of the simulator's read seam. `m2` (a `thread_local` cache keyed by the address of a rule):
+  seen as differing digests but not reproducible from the scenario alone; C19 replay files can now carry the scenarios the worker had
+  executed before (`# first`), replayed in the same process. `m3` (`partial_cmp` breaking ties with alloc): results are now also related
+  to each other with `==`, `partial_cmp`, `<`, `>=` (neighbours in result lists, the two halves of a skipped pair, an instant written as
+  second 60 and as second 0 of the next minute).
+* `seeded/C17-r8c17-*`, `seeded/C08-r8c08-*`, `seeded/C07-r8c07-m1`: caught as they were.
+
 Two-site breakages (`seeded/C07-duo2-m1`, `C08-duo2-m2`, `C17-duo2-m3`): each consists of two edits in different functions that are
 harmless alone (a relaxed range check in `TimeZoneRef::new` + a hoisted index in `find`; explicit enum discriminants + a numeric version
 comparison; an up-front validation in `find_n` + a reordered range check in the shared search). All three combinations were caught by the
